@@ -87,13 +87,14 @@ package core
 //@   ensures imp(result1 == nil, scanner.scannerInv(core.scanner))
 
 //@ func (*JApiCore).processInclude(core, keyword)
-//@   property C14,C01,C09
+//@   property C14,C01,C09,C19
 //@   requires coreScanInv(core) && keyword != nil && scanner.lexOK(keyword) && keyword.begin < len(keyword.file.content.data)
 //@   requires keyword.file == core.scanner.file
 //@   modifies core.scanner, scanner.nextMod(core.scanner),
 //@            fields(core.scannersStack), core.scannersStack.stack[:], core.scannersStack.hashes[:], core.scannersStack.uniqueFiles[:]
 //@   ensures imp(result == nil, coreScanInv(core))
 //@   ensures[C09,@include-keeps-pending] core.currentDirective == old(core.currentDirective) && core.currentContextDirective == old(core.currentContextDirective)
+//@   ensures[C19,@ban-checked] imp(banned(core, directive.Include), result != nil && result.File == keyword.file && result.Index == keyword.begin)
 //@   ensures scanner.itemsOK(core.scannersStack)
 
 // --- the scanning loop -------------------------------------------------------------------------------------------
@@ -152,8 +153,15 @@ package core
 //@   ensures imp(result == nil, core.currentDirective == nil)
 //@   ensures imp(result != nil, core.currentDirective == old(core.currentDirective))
 
+// ---------------------------------------------------------------------------
+// Banned directives (C19). The set is written only by the option, before the build.
+//@ confined JApiCore.bannedDirectives writers WithBannedDirectives property C19
+//@ pred banned(core *JApiCore, t directive.Enumeration) := core.bannedDirectives != nil && has(core.bannedDirectives, t)
+
 //@ func (*JApiCore).setCurrentDirective(core, keyword, keywordCoords)
 //@   property C01,C13,C19
+//@   ensures[C19,@ban-checked] imp(result == nil, core.currentDirective != nil && !banned(core, core.currentDirective.type_))
+//@   ensures[C19,C07,@ban-error-at] imp(result != nil, result.File == keywordCoords.file && result.Index == keywordCoords.begin)
 //@   requires coreScanInv(core) && keywordCoords.file != nil
 //@   requires keywordCoords.begin < len(keywordCoords.file.content.data) && keywordCoords.file == core.scanner.file
 //@   modifies core.currentDirective, core.scannersStack.includeTracers, core.scannersStack.includeTracers[:]
@@ -195,3 +203,14 @@ package core
 //@   modifies anything
 //@ func (*JApiCore).scanProject loop 1
 //@   invariant coreScanInv(core) && core.scannersStack == old(core.scannersStack)
+
+//@ func (*JApiCore).addDirective(core, d)
+//@   property C19
+//@   requires core != nil && directive.dirOK(d)
+//@   modifies anything
+//@   ensures[C19,@ban-checked] imp(old(banned(core, d.type_)), result != nil && result.File == d.keywordCoords.file && result.Index == d.keywordCoords.begin)
+
+// uniform contract of the per-directive handlers stored in JApiCore.directiveFunctions (bound methods add*)
+//@ functype JApiCore.directiveFunctions(d)
+//@   requires directive.dirOK(d)
+//@   modifies anything
